@@ -7,6 +7,21 @@ def logu(rnd, a, b):
 
 
 def random_mssm(rnd, lo=300, hi=2000, tb_lo=3, tb_hi=50):
+    """a valid point: the left-right mixing entries m_f (A_f - mu tan(beta)) (resp. cot(beta)) stay below half of
+    m_L m_R in every sfermion sector, so that no tachyon arises from the random choice itself"""
+    while True:
+        p = _random_mssm(rnd, lo, hi, tb_lo, tb_hi)
+        tb, mu = p["TB"], p["Mu"]
+        ok = True
+        for i, (ml_, mdn, mup) in enumerate(((0.000511, 0.0047, 0.0022), (p["Mm"], 0.096, 1.28), (p["Mtau"], p["Mb"], p["Mt"]))):
+            ok &= ml_ * abs(p["Ae"][i] - mu * tb) < 0.5 * p["ml"][i] * p["me"][i]
+            ok &= mdn * abs(p["Ad"][i] - mu * tb) < 0.5 * p["mq"][i] * p["md"][i]
+            ok &= mup * abs(p["Au"][i] - mu / tb) < 0.5 * p["mq"][i] * p["mu"][i]
+        if ok:
+            return p
+
+
+def _random_mssm(rnd, lo=300, hi=2000, tb_lo=3, tb_hi=50):
     sgn = lambda: rnd.choice([-1.0, 1.0])
     p = {"aMZ": 0.00775531, "a0": 0.00729735, "as": 0.1184, "Mt": 173.34, "Mb": 4.18, "Mm": 0.1056583715,
          "Mtau": 1.777, "MW": 80.385, "MZ": 91.1876}
